@@ -1,3 +1,4 @@
+import Gtree.Lemmas.SourceRefines
 import Gtree.Lemmas.Output
 import Gtree.Model.Wasm
 /-
@@ -64,4 +65,14 @@ theorem C15_verify (f : List T) (s₁ s₂ : Spelling) (h₁ : s₁.Valid (items
   unfold verifyMd
   simp only [e1, e2, hr]
 
+end Gtree
+
+namespace Gtree
+/-- Tie to the source, re-checked on every run: the notation-learning parser (`spaces`, `sep`, `isSharpRoot`) the C15 theorems are about is `Parser.Parse` of markdown/parser.go as translated on this run. -/
+theorem C15_parser_is_the_source (st : PState) (row : Bytes) :
+    Src.Parser.Parse (toSrc st) row = (toSrc (parse st row).1, resSrc (parse st row).2) :=
+  Parse_src st row
+
+/-- the parser every generator starts with (`md.NewParser()` returns `&Parser{}`) is the model's initial state -/
+example : toSrc {} = { isSharpRoot := false, spaces := 0, sep := [] } := rfl
 end Gtree
